@@ -25,6 +25,7 @@ import itertools
 import json
 import math
 import os
+import re
 import subprocess
 import tempfile
 import traceback
@@ -685,7 +686,7 @@ def constant_obligations(rep):
                     bad.append((repr(v), shape, "raised %r" % (e,)))
         # complex constants: both components bit for bit (signed zeros)
         cbad = []
-        for v in (complex(-1, 0.0), complex(-1, -0.0), complex(-0.0, 2.0), complex(0.0, -3.0), complex(1.5, float("inf")), complex(-0.0, -0.0)):
+        for v in (complex(-1, 0.0), complex(-1, -0.0), complex(-0.0, 2.0), complex(0.0, -3.0), complex(1.5, float("inf")), complex(-0.0, -0.0), numpy.complex64(complex(1, -0.0)), numpy.complex64(complex(float("inf"), 1)), numpy.complex128(complex(-0.0, 1)), numpy.complex64(complex(-2.5, 0.0))):
             def fz(ctx, z: complex):
                 return ctx.constant(v, z)
 
@@ -893,6 +894,90 @@ def auto_reference_obligations(rep):
     rep.add(core.decided("C05/O8/auto-reference-names-distinct", PROP, not bad, functions=fnid, text="%d pairs of nodes that differ only in a constant operand: different expressions get different reference names" % n, detail=dict(bad=[str(b) for b in bad[:8]]), meta=dict(kind="auto-reference-names", bad=[str(b) for b in bad[:4]])))
 
 
+# --------------------------------------------------------------------------------------------- O9 C++ whole functions
+def cpp_function_obligations(rep):
+    """the real C++ printer on small whole functions (constants of every value class, kinds with a literal operand): the
+    emitted source compiles with g++ and returns, bit for bit, what the graph evaluates to in the declared type"""
+    import contextlib
+    import io
+    import warnings
+
+    import functional_algorithms as fa
+    import functional_algorithms.targets as T
+
+    fnid = ("targets.cpp.Printer",)
+    work = tempfile.mkdtemp(prefix="vf_c05cpp_")
+    cases = []
+
+    def case(name, fn, dtype, xval, want):
+        cases.append((name, fn, dtype, xval, want))
+
+    f32, f64 = numpy.float32, numpy.float64
+    for t, tn in ((f32, "float32"), (f64, "float64")):
+        x0 = t(1.1)
+        case("inline-float-constant/%s" % tn, lambda ctx, x: x * ctx.constant(0.1, x), t, x0, x0 * t(0.1))
+        case("integer-valued-constants-divided/%s" % tn, lambda ctx, x: x * (ctx.constant(1, x) / ctx.constant(3, x)), t, x0, x0 * (t(1) / t(3)))
+        case("maximum-with-literal/%s" % tn, lambda ctx, x: ctx.maximum(x, ctx.constant(1, x)), t, t(0.5), t(1))
+        case("minimum-with-literal/%s" % tn, lambda ctx, x: ctx.minimum(x, ctx.constant(0.5, x)), t, t(2), t(0.5))
+        case("nan-constant/%s" % tn, lambda ctx, x: x + ctx.constant(float("nan"), x), t, x0, t(numpy.nan))
+        case("negative-infinity-constant/%s" % tn, lambda ctx, x: x + ctx.constant(float("-inf"), x), t, x0, t(-numpy.inf))
+        case("negative-zero-constant/%s" % tn, lambda ctx, x: ctx.copysign(x, ctx.constant(-0.0, x)), t, x0, -x0)
+        case("named-pi/%s" % tn, lambda ctx, x: x * ctx.constant("pi", x), t, x0, x0 * t(numpy.pi))
+        case("sign-inlined/%s" % tn, lambda ctx, x: ctx.sign(x) * x * x * x, t, t(1.7), t(1.7) * t(1.7) * t(1.7))
+        case("large-integer-constant/%s" % tn, lambda ctx, x: x + ctx.constant(2**64, x), t, x0, x0 + t(2.0**64))
+        case("remainder/%s" % tn, lambda ctx, x: ctx.remainder(x, ctx.constant(0.75, x)) if hasattr(ctx, "remainder") else x % ctx.constant(0.75, x), t, t(2.0), t(2.0) % t(0.75))
+        case("boolean-constant-in-select/%s" % tn, lambda ctx, x: ctx.select(ctx.logical_and(x < x + x, ctx.constant(True)), x, -x), t, x0, x0)
+    results = {}
+    for name, fn, t, xval, want in cases:
+        ct = "float" if t is f32 else "double"
+        it = "uint32_t" if t is f32 else "uint64_t"
+        prob = None
+        try:
+            def f(ctx, x: float):
+                return fn(ctx, x)
+
+            with warnings.catch_warnings(), contextlib.redirect_stdout(io.StringIO()):
+                warnings.simplefilter("ignore")
+                ctx = fa.Context(paths=[fa.algorithms])
+                g = ctx.trace(f, t).rewrite(T.cpp)
+                src = g.tostring(T.cpp)
+        except NotImplementedError:
+            results[name] = NotImplemented  # the target does not accept this graph
+            continue
+        except Exception as e:
+            results[name] = "printing raised %r" % (e,)
+            continue
+        mname = re.search(r"\b(\w+)\s*\(", src[src.index(ct) :] if ct in src else src)
+        fname = re.search(r"(\w+)\(%s \w+\)" % ct, src)
+        prog = "#include <cstdio>\n#include <cstring>\n#include <cstdint>\n" + T.cpp.source_file_header + "\n" + src + "\nint main(){ %s x = (%s)%r; %s r = %s(x); %s b; std::memcpy(&b, &r, sizeof b); printf(\"%%llx\\n\", (unsigned long long)b); return 0; }\n" % (ct, ct, float(xval), ct, fname.group(1) if fname else "f", it)
+        fn_c = os.path.join(work, "t_%d.cpp" % len(results))
+        with open(fn_c, "w") as fh:
+            fh.write(prog)
+        exe = fn_c[:-4]
+        pr = subprocess.run(["g++", "-O0", "-w", "-o", exe, fn_c], capture_output=True, text=True)
+        if pr.returncode:
+            errs = [ln for ln in pr.stderr.splitlines() if "error" in ln]
+            results[name] = "does not compile: %s" % (errs[0][-160:] if errs else pr.stderr[-160:])
+            continue
+        out = subprocess.run([exe], capture_output=True, text=True).stdout.strip()
+        got = int(out, 16) if out else None
+        wantbits = int(numpy.asarray(want, dtype=t).view(numpy.uint32 if t is f32 else numpy.uint64))
+        if numpy.isnan(want):
+            gv = numpy.array([got or 0], dtype=numpy.uint32 if t is f32 else numpy.uint64).view(t)[0]
+            ok = bool(numpy.isnan(gv))
+        else:
+            ok = got == wantbits
+        results[name] = None if ok else "returns bits %s, the graph evaluates to %r (bits %x) at x = %r" % (out, want, wantbits, xval)
+    import shutil
+
+    shutil.rmtree(work, ignore_errors=True)
+    for name, prob in sorted(results.items()):
+        if prob is NotImplemented:
+            rep.add(core.decided("C05/O9/cpp-function/%s" % name, PROP, None, functions=fnid, text="the C++ target does not accept this graph", claimed=False))
+            continue
+        rep.add(core.decided("C05/O9/cpp-function/%s" % name, PROP, prob is None, functions=fnid, text="the emitted C++ function compiles and returns the value of the graph in the declared type", detail=dict(problem=prob), meta=dict(target="cpp", kind="cpp-function " + name.split("/")[0], problem=prob)))
+
+
 # --------------------------------------------------------------------------------------------- main
 def replay_any(o):
     m = o.meta or {}
@@ -914,7 +999,7 @@ def build(tier):
             template_obligations_py(rep, t)
         except Exception:
             rep.add(core.decided("C05/O1/%s/engine" % t, PROP, core.ERROR, text=traceback.format_exc()[-1500:]))
-    for f in (template_obligations_cpp, composition_obligations, printer_step_obligations, need_ref_obligations, reference_obligations, constant_obligations, list_argument_obligations, auto_reference_obligations):
+    for f in (template_obligations_cpp, composition_obligations, printer_step_obligations, need_ref_obligations, reference_obligations, constant_obligations, list_argument_obligations, auto_reference_obligations, cpp_function_obligations):
         try:
             f(rep)
         except Exception:
